@@ -2441,6 +2441,11 @@ def positional_form(F, chain, I=("i",)):
         return None if inner is None else (("tuple", (I, inner[0])), inner[1])
     if len(a) == 2 and itm(name, "zip"):
         l, r = positional_form(F, a[0], I), positional_form(F, a[1], I)
+        if r is None:
+            # zip takes any IntoIterator: a collection handed over as it is (`xs.iter().zip(ys)`) is walked from its start
+            y = clean(a[1])
+            if not (y[0] == "call" and re.search(r"Iterator>?::\w+$|Itertools::\w+$", y[1].split("{")[0]) and not itm(y[1], "next")) and y[0] not in ("closure", "const"):
+                r = (("at", y, I), {("len", y)})
         return None if l is None or r is None else (("tuple", (l[0], r[0])), l[1] | r[1])
     if len(a) == 2 and itm(name, "map") and a[1][0] == "fn":
         # a tuple-struct constructor or function used as the mapper
